@@ -101,6 +101,26 @@ class GBackend(Backend, backend_name="vtsym"):
         return G.transpose(tensor, axes)
 
     @staticmethod
+    def moveaxis(tensor, source, destination):
+        # contract of numpy.moveaxis (the callable NumpyBackend registers): ints or sequences of ints, negative positions allowed
+        nd = len(tensor.shape)
+        src = [source] if isinstance(source, int) else list(source)
+        dst = [destination] if isinstance(destination, int) else list(destination)
+        if len(src) != len(dst):
+            raise ValueError("`source` and `destination` arguments must have the same number of elements")
+        for a in src + dst:
+            if not -nd <= a < nd:
+                raise ValueError(f"axis {a} is out of bounds for array of dimension {nd}")
+        src = [a % nd for a in src]
+        dst = [a % nd for a in dst]
+        if len(set(src)) != len(src) or len(set(dst)) != len(dst):
+            raise ValueError("repeated axis")
+        order = [n for n in range(nd) if n not in src]
+        for d_, s_ in sorted(zip(dst, src)):
+            order.insert(d_, s_)
+        return G.transpose(tensor, order)
+
+    @staticmethod
     def ones(shape, dtype=None, **kw):
         return G.ones(shape, dtype or "float64")
 
